@@ -91,6 +91,15 @@ Depth1 ==
   \cup {Tup(<<TString>>, <<Prim("unknown")>>), Tup(<<TString, TNumber>>, <<Prim("unknown")>>), Arr(Prim("unknown")),
         Uni(<<Tup(<<TString>>, <<Prim("unknown")>>), TNull>>)}
 
+\* unions of a two-key object and a one-key object (several negative record atoms against one positive: the emptiness check
+\* splits the positive key by key and asks the remaining negatives about every fragment), in both orders of the members (atoms are
+\* numbered in the order they are met).  They are paired with the object-like types of the fragment only (MapSide), in both directions.
+WideSet ==
+  {Uni(<<O(<<Prop("a", x, o), Prop("b", y, o)>>), O(<<Prop(k, z, FALSE)>>)>>)
+         : x \in {TString, TNumber}, y \in {TString, TNumber}, o \in BOOLEAN, k \in {"a", "b"}, z \in {TString, TNumber}}
+  \cup {Uni(<<O(<<Prop(k, z, FALSE)>>), O(<<Prop("a", x, TRUE), Prop("b", y, TRUE)>>)>>)
+         : x \in {TString, TNumber}, y \in {TString, TNumber}, k \in {"a", "b"}, z \in {TString, TNumber}}
+
 Depth2 ==
   {Uni(<<O(<<Prop("a", TNumber, FALSE)>>), O(<<Prop("b", TString, FALSE)>>)>>),
    Uni(<<O(<<Prop("a", LN("1"), FALSE)>>), O(<<Prop("a", LN("2"), FALSE)>>)>>),
@@ -108,16 +117,28 @@ Depth2 ==
    Obj(<<>>, <<Ix(TString, TNever)>>), Obj(<<>>, <<Ix(TString, Ref("Inf"))>>), Arr(TNever), Arr(Ref("Inf")), Tup(<<Ref("Inf")>>, <<>>),
    Uni(<<TNumber, TString, TNull, TBoolean>>)}
 
-FragSet == SeqToSet(Leaves) \cup (IF Level >= 1 THEN Depth1 ELSE {}) \cup (IF Level >= 2 THEN Depth2 ELSE {}) \cup {TNever}
-Frag == SetToSeq(FragSet)
+CoreSet == SeqToSet(Leaves) \cup (IF Level >= 1 THEN Depth1 ELSE {}) \cup (IF Level >= 2 THEN Depth2 ELSE {}) \cup {TNever}
+WideOnly == IF Level >= 1 THEN WideSet \ CoreSet ELSE {}
+FragSet == CoreSet \cup WideOnly
+Frag == SetToSeq(CoreSet) \o SetToSeq(WideOnly)
 NFrag == Len(Frag)
+NCore == Cardinality(CoreSet)
+\* the object-like types: object literals, and references to / unions and intersections of them
+RECURSIVE IsMapSideT(_, _)
+IsMapSideT(T, f) ==
+  CASE T.t = "obj" -> TRUE
+    [] T.t \in {"union", "inter"} -> \E i \in DOMAIN T.ms : IsMapSideT(T.ms[i], f)
+    [] T.t = "ref" -> f > 0 /\ IsMapSideT(Lookup(Env, T.n), f - 1)
+    [] OTHER -> FALSE
+IsMapSide(i) == IsMapSideT(Frag[i], 2)
+Allowed(i, j) == (i <= NCore /\ j <= NCore) \/ (i > NCore /\ IsMapSide(j)) \/ (j > NCore /\ IsMapSide(i))
 
 VARIABLES ia, ib
 svars == <<ia, ib>>
 SInit == ia = 1 /\ ib = 1
 \* actions: step either register to any type of the fragment
-SNext == \/ \E i \in 1..NFrag : ia' = i /\ ib' = ib
-         \/ \E i \in 1..NFrag : ib' = i /\ ia' = ia
+SNext == \/ \E i \in 1..NFrag : ia' = i /\ ib' = ib /\ Allowed(i, ib)
+         \/ \E i \in 1..NFrag : ib' = i /\ ia' = ia /\ Allowed(ia, i)
 SSpec == SInit /\ [][SNext]_svars
 
 A == Frag[ia]
